@@ -283,6 +283,12 @@ class VThread:
         w.in_helper_thread += 1
         try:
             self.target(*self.args, **self.kwargs)
+        except HarnessError:
+            raise
+        except Exception as e:  # noqa
+            # an exception that escapes a thread's target ends that thread only (threading prints it
+            # and carries on): the starter never sees it
+            w.record('thread-died', type(e).__name__, str(e)[:120])
         finally:
             w.in_helper_thread -= 1
 
